@@ -12,6 +12,10 @@ running the loop to quiescence:
                          2 inside the body frame)
   ["F", v, p]            the same, but the next message is sent with Transfer-Encoding: chunked and cut after p
                          plaintext bytes (p < 0: from the end; -2 = between the terminating "0\\r\\n" and the last CRLF)
+  ["R"]                  the accessory is reachable again: the REAL connector (waiting at a gated dial) gets through after
+                         connection.reconnect_soon(); a closed connection gets a new transport + protocol on the same
+                         HomeKitConnection object (same semaphore, same callers); no-op while connected
+  ["LL"]                 connection_lost of abandoned transports (deferred while bytes were unsent) is delivered now
   ["C", r]               task r .cancel()
   ["A", dt]              virtual time advances dt ticks (1/4096 s)
   ["PC"] / ["PE"]        peer resets / peer half-closes (FIN);  ["PE", 1] / ["PC", 1]: the same while request bytes
@@ -42,6 +46,12 @@ Oracle (independent of the model, computed from what the accessory side and the 
   write-after-abandon      request bytes written after the transport was abandoned
   late-request-not-refused a request issued after the abandonment did not fail with the disconnection error at once
   hang                     a caller still pending after 31 s of silence
+  stale-response-across-connections  a request got a response that was sent on an earlier connection of the object
+  concurrency-limit-exceeded / starved-request  more than cap requests in flight / a caller waits for the semaphore
+                           although the live connection has a free slot (over- or under-released semaphore)
+  disconnected-without-abandon  a request failed with the disconnection error on a connection that is and stays alive
+  timeout-at-wrong-tick    the timeout abandonment did not happen at exactly write + 30 s
+  livelock                 the event loop spun without virtual time advancing (vloop.Livelock) or stalled
   spurious-abandon         the transport was closed in a step that gives no reason for it (no cancel of a written
                            request, no due timer, no peer/local close, no unsolicited or foreign message): e.g. the
                            parser choking on a well-formed message that arrived in pieces; the outstanding and the
@@ -188,12 +198,38 @@ def buf_loop():
                 if pending:
                     try:
                         loop.run_until_complete(asyncio.gather(*pending, return_exceptions=True))
-                    except vloop.Stalled:
+                    except (vloop.Stalled, getattr(vloop, "Livelock", vloop.Stalled)):
                         pass
             finally:
                 asyncio.set_event_loop(None)
                 loop.close()
-    _BUF.update(BufTransport=BufTransport, BufLoop=BufLoop, run=run)
+
+    class GateNet(vloop.Net):
+        """scripted first dial; every later dial (the real connector reconnecting) waits at a gate until the
+        history's Reconnect event grants one permit; the connector's own 10 s timeout cancels the wait"""
+
+        def __init__(self, loop, script):
+            super().__init__(loop, script)
+            self.permits = 0
+            self.gate = None
+
+        def release_gate(self):
+            if self.gate is not None and not self.gate.done():
+                self.gate.set_result(None)
+
+        async def start_connection(self, addr_infos, **kw):
+            if self.attempts == 0:
+                return await super().start_connection(addr_infos, **kw)
+            self.attempts += 1
+            cands = [ai[4][0] for ai in addr_infos]
+            self.log("dial", tuple(cands), "gate")
+            while self.permits <= 0:
+                self.gate = self.loop.create_future()
+                await self.gate
+            self.permits -= 1
+            await asyncio.sleep(0)
+            return vloop.FakeSock(self, cands[0], addr_infos[0][4][1])
+    _BUF.update(BufTransport=BufTransport, BufLoop=BufLoop, run=run, GateNet=GateNet)
     return _BUF
 
 
@@ -281,9 +317,9 @@ def run_impl(hist, cap=1):
     import vloop
 
     async def main(loop):
-        net = vloop.Net(loop, [("connect", 0)])
-        net.default = ("hang",)      # reconnect attempts after the abandonment never get through (C10's business)
+        net = buf_loop()["GateNet"](loop, [("connect", 0)])   # reconnect dials wait for the history's "R" event
         log = []
+        sent_epoch = {}
         eps = []
         t0 = [0]
         outstanding = []      # accessory side: requests received and not yet answered
@@ -351,6 +387,7 @@ def run_impl(hist, cap=1):
             def assign(mk, mn, is_open):
                 if mk == "H":
                     intended[mn] = outstanding.pop(0) if (outstanding and is_open) else None
+                    sent_epoch[mn] = len(net.all) - 1
 
             def lookahead(i):
                 for ev in hist[i + 1:]:
@@ -448,10 +485,36 @@ def run_impl(hist, cap=1):
                         await conn.close()
                     else:
                         await p.close()
+                elif k == "R":
+                    # the accessory is reachable again and is announced (reconnect_soon = what zeroconf triggers);
+                    # model: a closed connection starts a new epoch, an open one is left alone
+                    if tr.is_closing():
+                        if not tr._conn_lost and conn.transport is tr:
+                            tr.unsent = 0                       # the dead socket finally errors out
+                            tr._schedule_lost(ConnectionResetError())
+                            await settle()
+                        net.permits = 1
+                        net.release_gate()
+                        conn.reconnect_soon()
+                elif k == "LL":
+                    # connection_lost of abandoned transports whose close was deferred (unsent bytes) arrives late
+                    for t_old in net.all:
+                        if t_old._closing and not t_old._conn_lost:
+                            t_old.unsent = 0
+                            t_old._schedule_lost(None)
                 else:
                     raise ValueError("bad event %r" % (ev,))
                 await settle()
-                steps.append(dict(out=collect(), pending=sorted(r for r, t in tasks.items() if not t.done()),
+                out = collect()
+                if k == "R":
+                    net.permits = 0
+                    if net.all[-1] is not tr and not net.all[-1].is_closing() and conn.transport is net.all[-1]:
+                        tr, ep = net.all[-1], eps[-1]           # new epoch: new transport, new accessory session
+                        ntrace[0] = 0
+                        tail, tail_msg = b"", None
+                        del outstanding[:]
+                        out.append("o@%d" % now())
+                steps.append(dict(out=out, pending=sorted(r for r, t in tasks.items() if not t.done()),
                                   closing=bool(tr.is_closing()), raised=len(loop.errors) > nerr, now=now()))
             # hang detection: 31 s of silence (nothing can happen when no caller is pending)
             if any(not t.done() for t in tasks.values()):
@@ -464,7 +527,7 @@ def run_impl(hist, cap=1):
             await conn.close()
             await settle()
             return dict(steps=steps, hang=hang, tail=tail_out, intended={str(k): v for k, v in intended.items()},
-                        sent_events=sent_events, errors=sorted({type(c.get("exception")).__name__ for c in loop.errors}))
+                        sent_events=sent_events, sent_epoch={str(k): v for k, v in sent_epoch.items()}, errors=sorted({type(c.get("exception")).__name__ for c in loop.errors}))
         finally:
             undo1()
             undo2()
@@ -496,12 +559,15 @@ def _lookahead(hist, i):
     return ("H", 9000 + i)
 
 
-def oracle(hist, res):
+def oracle(hist, res, cap=None):
     """Returns [(key, text)]; empty when the implementation's behaviour satisfies C08 on this history."""
     bad = []
     if res.get("setup_failed"):
         return [("setup-failed", "secure session could not be established in the simulation")]
     intended = {int(k): v for k, v in res["intended"].items()}
+    sent_epoch = {int(k): v for k, v in res.get("sent_epoch", {}).items()}
+    epoch = 0             # connection epoch = number of reconnects so far
+    write_epoch = {}
     wrote = {}            # r -> time
     done = {}             # r -> (outcome, time)
     got = {}              # payload -> r
@@ -522,6 +588,7 @@ def oracle(hist, res):
             if t[0] == "w":
                 r, tm = t[1:].split("@")
                 wrote[int(r)] = int(tm)
+                write_epoch[int(r)] = epoch
                 if was_abandoned:
                     bad.append(("write-after-abandon", f"step {i}: request {r} written after the connection was abandoned"))
             elif t[0] == "d":
@@ -546,10 +613,26 @@ def oracle(hist, res):
                                     f"step {i}: request {r} completed with response {n}, which the accessory sent for request {want}"))
                     if r not in wrote:
                         bad.append(("response-to-unwritten-request", f"request {r} got a response but was never written"))
+                    elif n in sent_epoch and sent_epoch[n] != write_epoch.get(r):
+                        bad.append(("stale-response-across-connections",
+                                    f"step {i}: request {r} (written on connection #{write_epoch.get(r)}) completed with response {n}, "
+                                    f"which was sent on connection #{sent_epoch[n]}"))
+                elif oc == "disc" and not was_abandoned and not stp["closing"] and i < len(hist):
+                    bad.append(("disconnected-without-abandon",
+                                f"step {i} ({ev[0]}): request {r} failed with the disconnection error although the connection "
+                                f"is alive and stays alive"))
                 elif oc.startswith("other"):
                     bad.append(("unexpected-exception:" + oc.split(":")[1], f"step {i}: request {r} raised {oc}"))
             elif t[0] == "e":
                 events.append(int(t[1:].split("@")[0]))
+            elif t[0] == "o":
+                epoch += 1                      # reconnected: a new connection epoch
+                abandoned = was_abandoned = tainted = False
+            elif t[0] == "x" and i < len(hist) and ev[0] == "A" and pending_written_before:
+                due = min(pending_written_before.values()) + T30
+                if int(t[2:]) != due and stp["now"] >= due:
+                    bad.append(("timeout-at-wrong-tick",
+                                f"step {i}: the connection was abandoned at tick {t[2:]}, the oldest request's 30 s timer was due at {due}"))
         if stp["closing"]:
             abandoned = True
         if i < len(hist) and abandoned and not was_abandoned:
@@ -584,6 +667,16 @@ def oracle(hist, res):
             elif stp["closing"] and stp["pending"]:
                 bad.append(("pending-after-abandon",
                             f"step {i} ({ev[0]}): transport closed but callers {stp['pending']} are still pending"))
+            if cap:
+                infl = [r for r in wrote if r not in done]
+                unwritten = [r for r in stp["pending"] if r not in wrote]
+                if len(infl) > cap:
+                    bad.append(("concurrency-limit-exceeded",
+                                f"step {i}: requests {infl} are in flight at once, the connection's limit is {cap}"))
+                if not stp["closing"] and unwritten and len(infl) < cap:
+                    bad.append(("starved-request",
+                                f"step {i}: callers {unwritten} wait for the semaphore although only {len(infl)} of {cap} "
+                                f"requests are in flight on a live connection (they are never written)"))
             if was_abandoned and ev[0] == "I":
                 r = issued - 1
                 if done.get(r, ("",))[0] != "disc":
@@ -626,11 +719,11 @@ def ev_tok(ev):
         return "A%d" % ev[1]
     if k == "LC":
         return "LC"
-    return k
+    return k          # I F PC PE R LL
 
 
 def model_line(cap, hist):
-    return "run %d %d " % (cap, T30) + " ".join(ev_tok(e) for e in hist)
+    return "crun %d %d " % (cap, T30) + " ".join(ev_tok(e) for e in hist)
 
 
 def parse_model(ans, nsteps):
@@ -639,7 +732,7 @@ def parse_model(ans, nsteps):
     if len(steps) != nsteps:
         raise RuntimeError("model answer malformed: %r" % ans[:200])
     d = dict(kv.split("=") for kv in st.split(" "))
-    state = dict(open=d["open"] == "1", clock=int(d["clock"]), next=int(d["next"]),
+    state = dict(open=d["open"] == "1", clock=int(d["clock"]), next=int(d["next"]), epoch=int(d.get("epoch", 0)),
                  infl=[int(x.split(":")[0]) for x in d["infl"].split(",") if x],
                  wait=[int(x) for x in d["wait"].split(",") if x])
     return steps, state
@@ -648,13 +741,13 @@ def parse_model(ans, nsteps):
 # ------------------------------------------------------------------------------------------------
 # generators
 # ------------------------------------------------------------------------------------------------
-def gen_exhaustive(drv, cap, depth, rich, max_issue, max_frag):
+def gen_exhaustive(drv, cap, depth, rich, max_issue, max_frag, start=None, closing=None):
     """All histories of `depth` events over the state-dependent alphabet (see notes/C08.md), enumerated
     breadth first; the model state after each prefix (from the driver) only decides which letters are
     enabled: after the transport is closed at most two more events from {I, D[H], A(30 s)} are explored
     (the closed state is absorbing), Cancel ranges over the pending ids plus one completed id."""
     rich = rich in (True, "thorough")
-    level = [([], dict(frag=0, lastA=False, closed_len=0))]
+    level = start if start is not None else [([], dict(frag=0, lastA=False, closed_len=0))]
     leaves = []
     for d in range(depth):
         lines = [model_line(cap, h) for h, _ in level]
@@ -665,6 +758,8 @@ def gen_exhaustive(drv, cap, depth, rich, max_issue, max_frag):
             i = len(h)
             letters = []
             if not st["open"]:
+                if closing is not None and meta["closed_len"] == 0 and h:
+                    closing.append(h)          # the transport was closed by the last event of h
                 if meta["closed_len"] >= 2:
                     leaves.append(h)
                     continue
@@ -704,13 +799,29 @@ def gen_exhaustive(drv, cap, depth, rich, max_issue, max_frag):
                     letters.append(["PC", 1])
                     letters.append(["LC", i, 1])
                 letters.append(["LC", i])
+                if meta.get("ep"):
+                    letters.append(["LL"])
             for ev in letters:
-                m = dict(frag=meta["frag"] + (ev[0] == "F"), lastA=ev[0] == "A",
+                m = dict(meta)
+                m.update(frag=meta["frag"] + (ev[0] == "F"), lastA=ev[0] == "A",
                          closed_len=meta["closed_len"] + (0 if st["open"] else 1))
                 nxt.append((h + [ev], m))
         level = nxt
     leaves += [h for h, _ in level]
     return leaves
+
+
+def gen_epochs(drv, cap, pre_depth, post_depth, rich=False):
+    """the long-lived connection: EVERY way (over the basic alphabet, <= pre_depth events, <= 2 callers) of getting
+    the connection abandoned, then [R] or [I, R] (a request refused while down, then the reconnect), then every
+    continuation of post_depth events over the open alphabet (+ LL, + further closes) on the new epoch"""
+    closing = []
+    gen_exhaustive(drv, cap, pre_depth, False, 2, 1, closing=closing)
+    start = []
+    for h in closing:
+        start.append((h + [["R"]], dict(frag=0, lastA=False, closed_len=0, ep=1)))
+        start.append((h + [["I"], ["R"]], dict(frag=0, lastA=False, closed_len=0, ep=1)))
+    return gen_exhaustive(drv, cap, post_depth, rich, 6, 1, start=start)
 
 
 def gen_chunk_cuts():
@@ -736,7 +847,17 @@ def gen_random(r, n, maxlen):
         issued = answered = 0
         closed_at = None
         calm = r.random() < 0.6          # mostly well-behaved accessory: long lives
+        recs = r.choice([0, 0, 1, 2, 3])       # how many reconnects this history may contain
         for i in range(ln):
+            if closed_at is not None and recs > 0 and r.random() < 0.5:
+                h.append(["R"])                # the connector gets through: new epoch
+                recs -= 1
+                closed_at = None
+                issued = answered = len([e for e in h if e[0] == "I"])
+                continue
+            if closed_at is None and h and ["R"] in h and r.random() < 0.04:
+                h.append(["LL"])
+                continue
             if closed_at is not None and i - closed_at > 3:
                 break
             x = r.random()
@@ -806,6 +927,16 @@ DIRECTED = [
     (1, [["I"], ["I"], ["A", 7], ["LC", 1], ["I"], ["A", T30]]),
     (2, [["I"], ["I"], ["I"], ["D", [["H", 1]]], ["LC", 0], ["D", [["H", 2]]], ["I"]]),
     (1, [["I"], ["C", 0], ["LC", 0], ["I"]]),
+    # long-lived connection: several epochs on one HomeKitConnection object
+    (1, [["I"], ["C", 0], ["D", [["H", 5]]], ["I"], ["R"], ["I"], ["I"], ["D", [["H", 6]]], ["LL"], ["PC"], ["R"], ["R"], ["I"],
+         ["D", [["E", 9], ["H", 7]]]]),
+    (1, [["I"], ["I"], ["PE", 1], ["A", 100], ["R"], ["I"], ["D", [["H", 3]]], ["LL"], ["I"], ["D", [["H", 4]]]]),
+    (1, [["I"], ["LC", 0, 1], ["R"], ["I"], ["LL"], ["D", [["H", 3]]], ["I"], ["D", [["H", 4]]]]),
+    (1, [["I"], ["I"], ["I"], ["A", T30], ["A", 50000], ["R"], ["I"], ["I"], ["D", [["H", 3]]], ["D", [["H", 4]]]]),
+    (2, [["I"], ["I"], ["I"], ["PC"], ["R"], ["I"], ["I"], ["I"], ["D", [["H", 3], ["H", 4]]], ["D", [["H", 5]]]]),
+    (1, [["I"], ["I"], ["C", 0], ["R"], ["I"], ["I"], ["A", T30 - 1], ["A", 1], ["R"], ["I"], ["D", [["H", 8]]]]),
+    (1, [["I"], ["F", 1], ["PC"], ["R"], ["I"], ["D", [["H", 3]]]]),
+    (1, [["D", [["H", 1]]], ["R"], ["I"], ["D", [["H", 2]]], ["LC", 0], ["R"], ["I"], ["D", [["H", 3]]]]),
 ]
 
 
@@ -818,6 +949,8 @@ VM_EXAMPLES = [
     ("run 1 122880 I I PE D:H1 I", "w0@0||d0:disc@0,d1:disc@0,x@0||d2:disc@0"),
     ("run 2 122880 I I I D:H1,H2,H3", "w0@0|w1@0||d0:resp1@0,d1:resp2@0,c@0,d2:disc@0,x@0"),
     ("run 1 122880 I I A7 LC I A122880", "w0@0|||d0:disc@7,d1:disc@7,x@7|d2:disc@7|"),
+    ("crun 1 122880 I C0 D:H5 I R I I D:H6 LL PC R R I D:E9,H7",
+     "w0@0|d0:canc@0,x@0||d1:disc@0|o@0|w2@0||d2:resp6@0,w3@0||d3:disc@0,x@0|o@0||w4@0|e9@0,d4:resp7@0"),
 ]
 
 
@@ -827,10 +960,14 @@ VM_EXAMPLES = [
 def coq_request(line):
     """the Gallina term the driver evaluates for this request line (same token grammar as ocaml/drv_c08.ml)"""
     f = line.split(" ")
-    assert f[0] == "run"
+    assert f[0] in ("run", "crun")
+    comp = f[0] == "crun"
     mk = {"H": "KHttp", "E": "KEvent", "O": "KOther"}
     evs = []
     for t in f[3:]:
+        if comp and t in ("R", "LL"):
+            evs.append("Reconnect" if t == "R" else "LateLost")
+            continue
         if t == "I":
             evs.append("Issue")
         elif t == "F":
@@ -849,7 +986,10 @@ def coq_request(line):
             evs.append("Advance %d%%N" % int(t[1:]))
         else:
             raise ValueError("bad event token %r" % t)
-    return "run_steps %d%%nat %d%%N init [%s]" % (int(f[1]), int(f[2]), "; ".join(evs)), len(evs)
+    if comp:
+        evs = [e if e in ("Reconnect", "LateLost") else "Ev (%s)" % e for e in evs]
+        return "cshow (crun_steps %d%%nat %d%%N cinit [%s])" % (int(f[1]), int(f[2]), "; ".join(evs)), len(evs)
+    return "show (run_steps %d%%nat %d%%N init [%s])" % (int(f[1]), int(f[2]), "; ".join(evs)), len(evs)
 
 
 def flat_answer(ans, nsteps):
@@ -875,6 +1015,8 @@ def flat_answer(ans, nsteps):
                 out += [3, 0, 0, 0, int(tm)]
             elif head == "x":
                 out += [4, 0, 0, 0, int(tm)]
+            elif head == "o":
+                out += [5, 0, 0, 0, int(tm)]
             else:
                 raise ValueError("bad output token %r" % t)
     d = dict(kv.split("=") for kv in st.split(" "))
@@ -883,7 +1025,7 @@ def flat_answer(ans, nsteps):
     out += [int(d["open"]), int(d["clock"]), int(d["next"]), len(infl)]
     for r, w in infl:
         out += [int(r), int(w)]
-    return out + [len(wait)] + wait
+    return out + [len(wait)] + wait + ([int(d["epoch"])] if "epoch" in d else [])
 
 
 def xsample(pool, n=24):
@@ -894,7 +1036,7 @@ def xsample(pool, n=24):
         f = line.split(" ")
         fs = {"cap" + f[1]}
         for t in f[3:]:
-            fs.add(t if t in ("I", "F", "PC", "PE", "LC") else t[0])
+            fs.add(t if t in ("I", "F", "PC", "PE", "LC", "R", "LL") else t[0])
             if t[0] == "D" and t not in ("D:",):
                 fs |= {"m" + m[0] for m in t[2:].split(",")}
                 if "," in t:
@@ -932,7 +1074,7 @@ def vm_crosscheck(ctx, sample):
     final state): takes extraction + ocaml/drv*.ml out of the single-point-of-trust position.
     Returns (requests evaluated, [(line, driver answer as numbers, kernel answer as numbers)])."""
     import re
-    body = ["From Coq Require Import List NArith.", "From AHK Require Import Model.Disp.", "Import ListNotations.",
+    body = ["From Coq Require Import List NArith Arith.", "From AHK Require Import Model.Disp Model.DispConn.", "Import ListNotations.",
             "Definition show_oc (o : outcome) : N * N := match o with Resp n => (0%N, n) | Disconnected => (1%N, 0%N) "
             "| Cancelled => (2%N, 0%N) | TimedOut => (3%N, 0%N) end.",
             "Definition show_o (o : output) : list N := match o with "
@@ -946,12 +1088,22 @@ def vm_crosscheck(ctx, sample):
             "++ [(if opened (fst r) then 1%N else 0%N); clock (fst r); N.of_nat (next (fst r)); N.of_nat (length (inflight (fst r)))] "
             "++ flat_map (fun p => [N.of_nat (fst p); snd p]) (inflight (fst r)) "
             "++ N.of_nat (length (waiters (fst r))) :: map N.of_nat (waiters (fst r)).",
+            "Definition show_st (s : st) : list N := "
+            "[(if opened s then 1%N else 0%N); clock s; N.of_nat (next s); N.of_nat (length (inflight s))] "
+            "++ flat_map (fun p => [N.of_nat (fst p); snd p]) (inflight s) "
+            "++ N.of_nat (length (waiters s)) :: map N.of_nat (waiters s).",
+            "Fixpoint show_csteps (prev : nat) (l : list (list output * nat * N)) : list N := match l with [] => [] "
+            "| (os, ep, clk) :: l' => if Nat.ltb prev ep "
+            "then N.of_nat (S (length os)) :: flat_map show_o os ++ [5%N; 0%N; 0%N; 0%N; clk] ++ show_csteps ep l' "
+            "else N.of_nat (length os) :: flat_map show_o os ++ show_csteps ep l' end.",
+            "Definition cshow (r : cst * list (list output * nat * N)) : list N := "
+            "N.of_nat (length (snd r)) :: show_csteps 0 (snd r) ++ show_st (base (fst r)) ++ [N.of_nat (epoch (fst r))].",
             "Open Scope N_scope."]          # results print without %N delimiters (faster); the requests below are fully annotated
     nsteps = []
     for line, _ in sample:
         term, k = coq_request(line)
         nsteps.append(k)
-        body.append(f"Eval vm_compute in (show ({term})).")
+        body.append(f"Eval vm_compute in ({term}).")
     out = coq_eval(ctx["verif"], "C08", "crosscheck", "\n".join(body) + "\n", timeout=120)
     blocks = out.split("= ")[1:]
     bad = []
@@ -973,9 +1125,18 @@ def _work(case):
     """(cap, history, model answer) -> compact verdict; the oracle and the comparison run in the worker"""
     cap, hist, ans = case
     try:
-        res = run_impl(hist, cap)
+        try:
+            res = run_impl(hist, cap)
+        except Exception as e:  # noqa
+            import vloop
+            if isinstance(e, (vloop.Stalled, getattr(vloop, "Livelock", vloop.Stalled))):
+                # the real code spins without virtual time advancing, or waits for something that can never
+                # happen: some request never completes = a violation of C08 with this history as the replay
+                why = f"the event loop {'spun without virtual time advancing' if type(e).__name__ == 'Livelock' else 'stalled'} ({type(e).__name__})"
+                return dict(orc=[("livelock", why)], diff=None, outs=0, closed=False, crash=False, outcomes=[], impl=None)
+            raise
         msteps, mstate = parse_model(ans, len(hist) + 1)
-        orc = oracle(hist, res)
+        orc = oracle(hist, res, cap)
         diff = compare(hist, res, msteps)
         outcomes = sorted({t.split(":")[1].split("@")[0].rstrip("0123456789")
                            for s in res["steps"] for t in s["out"] if t[0] == "d"})
@@ -1089,6 +1250,11 @@ def run(ctx):
             plan = [(1, 7, False, 3, 1), (2, 7, False, 3, 1), (3, 6, False, 4, 1),
                     (1, 6, True, 3, 1), (2, 5, True, 3, 1), (3, 5, True, 4, 1)]
         exh_info = []
+        ep_plan = [(1, 2, 3), (2, 3, 2)] if tier == "quick" else [(1, 3, 4), (2, 3, 3), (3, 3, 3)]
+        for cap, pre, post in ep_plan:
+            leaves = gen_epochs(drv, cap, pre, post)
+            exh_info.append(dict(cap=cap, stream="epochs", closing_prefix_depth=pre, continuation_depth=post, histories=len(leaves)))
+            streams.append(("epochs-cap%d-%d+%d" % (cap, pre, post), [(cap, h) for h in leaves]))
         for cap, depth, rich, max_issue, max_frag in plan:
             leaves = gen_exhaustive(drv, cap, depth, rich, max_issue, max_frag)
             exh_info.append(dict(cap=cap, depth=depth, rich_alphabet=rich, histories=len(leaves), max_issue=max_issue,
@@ -1135,16 +1301,20 @@ def run(ctx):
                 key_count[key] = key_count.get(key, 0) + 1
                 if key_count[key] > 2:
                     continue          # enough replays for this failure class; keep counting
+                if key == "livelock":
+                    viols.append(violation("livelock", f"{orc[0][1]}: some request never completes  "
+                                           f"[cap={cap} history={json.dumps(hist)}]", True, cap=cap, history=hist))
+                    continue
                 # shrink for a small replay
 
                 def still(h2, key=key, cap=cap):
                     try:
-                        return any(k == key for k, _ in oracle(h2, run_impl(h2, cap)))
+                        return any(k == key for k, _ in oracle(h2, run_impl(h2, cap), cap))
                     except Exception:  # noqa
                         return False
                 small = shrink_hist(hist, still)
                 res2 = run_impl(small, cap)
-                for k, w in oracle(small, res2) or orc:
+                for k, w in oracle(small, res2, cap) or orc:
                     viols.append(violation(k, f"{w}  [cap={cap} history={json.dumps(small)}]", True, cap=cap, history=small,
                                            impl=[s["out"] for s in res2["steps"]] + [res2["tail"]],
                                            model=parse_model(drv.batch([model_line(cap, small + [["A", TAIL]])])[0], len(small) + 1)[0],
@@ -1162,7 +1332,7 @@ def run(ctx):
                             return False
                     small = shrink_hist(hist, differs)
                     r2 = run_impl(small, cap)
-                    o2 = oracle(small, r2)
+                    o2 = oracle(small, r2, cap)
                     m2 = parse_model(drv.batch([model_line(cap, small + [["A", TAIL]])])[0], len(small) + 1)[0]
                     d2 = compare(small, r2, m2)
                     if o2:
